@@ -346,7 +346,7 @@ def check(ctx):
         ok, detail = False, "condition not recognised"
         ne = ir.nonempty_entry(last) if last else None
         if last and (ne is not None or (last[1] and last[0][0] == "cmp" and last[0][1] in (">", ">=", "!="))):
-            l = last[0][2]
+            l = ne if ne is not None else last[0][2]
             txt = ir.show(l, maxdepth=12)
             uses_counts = "value_counts" in txt and "geographic_unit_fips" in txt
             on_R = any(_get_units_elem(x, 0) for x in ir.walk(l))
